@@ -77,6 +77,17 @@ Theorem C12_reaction_roundtrip : forall (F : Type) (parse_float : str -> option 
 Proof. exact reaction_roundtrip. Qed.
 Print Assumptions C12_reaction_roundtrip.
 
+(* ... and a whole network: species and reactions as above (read under the network's units as parent), the environment list and
+   the units system unchanged, and the network the reader builds passes RDNetwork's own validation again (no duplicate species or
+   reaction label, no reaction naming an undeclared species, a non-empty environment list without the reserved name) *)
+Theorem C12_network_roundtrip : forall (F : Type) (parse_float : str -> option F) (print_float : F -> str) (zero : F),
+  (forall x, parse_float (print_float x) = Some x) -> (forall x, existsb is_space (print_float x) = false) ->
+  (forall x, print_float x <> nil) ->
+  forall parent (n : network_obj F), wf_network F n ->
+  exists n', read_network F parse_float zero parent (write_network F print_float wr n) = Ok n' /\ network_equiv F n n'.
+Proof. exact network_roundtrip. Qed.
+Print Assumptions C12_network_roundtrip.
+
 (* what the writers put into the dictionaries reads back: every quantity is written as str(UnitValue) (C18) ... *)
 Theorem C12_quantity_text : forall (F : Type) (parse_float : str -> option F) (print_float : F -> str) (zero : F),
   (forall x, parse_float (print_float x) = Some x) -> (forall x, existsb is_space (print_float x) = false) ->
